@@ -1065,6 +1065,27 @@ def gen_update_case(r, profile='default', rounds=None):
                 t.add_file(Y + '/newfile', b'new file in the sibling\n')
                 c.meta['dirs'].append(Y)
                 muts.append('prefix-sibling:' + Y)
+    if prior != 'absent' and r.random() < 0.06:
+        # a valid Manifest file that the top-level Manifest lists as plain data (DATA / MISC), not as MANIFEST
+        cand = sorted({os.path.dirname(p) for p in files if os.path.dirname(p) and not any(x.startswith('.') for x in p.split('/'))
+                       and t.lookup(p) is not None})
+        cand = [d for d in cand if not any(os.path.dirname(m) == d for m in written)
+                and all(t.lookup(d + '/' + n) is None for n in ('Manifest', 'Manifest.gz', 'Manifest.bz2', 'Manifest.xz', 'Manifest.lzma'))]
+        top = t.lookup('Manifest')
+        if cand and top is not None:
+            d = r.choice(cand)
+            inner = [ET.entry_line('DATA', os.path.basename(p), data if r.random() < 0.7 else data + b'?', r.sample(GT.GOOD_HASHES, r.randint(0, 2)))
+                     for p, data in sorted(files.items()) if os.path.dirname(p) == d and t.lookup(p) is not None and r.random() < 0.8]
+            fmt = r.choice([None, None, 'gz'])
+            mdata = ('\n'.join(inner) + '\n').encode('utf8') if inner else b''
+            name = d + '/Manifest' + ('.' + fmt if fmt else '')
+            stored = ET.compress(fmt, mdata) if fmt else mdata
+            t.add_file(name, stored)
+            tn = t.nodes[top]
+            line = ET.entry_line(r.choice(['DATA', 'DATA', 'MISC']), name, stored if r.random() < 0.7 else stored + b'!', r.sample(GT.GOOD_HASHES, r.randint(0, 2)))
+            tn['data'] = tn['data'] + (b'' if tn['data'].endswith(b'\n') or not tn['data'] else b'\n') + line.encode('utf8') + b'\n'
+            tn['size'] = len(tn['data'])
+            muts.append('data-typed-manifest:' + name)
     c.meta['mutations'] = muts
     c.meta['prior'] = prior
     t.hardlinks = True
